@@ -20,16 +20,28 @@ def respScanTerm : Resp := .arr (some [.bulk (some [48]), .arr (some [])])
 /-- `uint64(cursor)` of an int64 -/
 def toU64 (v : Int) : BitVec 64 := BitVec.ofInt 64 v
 
+/-- `strconv.ParseUint(s, 10, 64)`: at least one digit, only digits, value below 2^64. -/
+def parseUint64 (b : Bytes) : Option Nat :=
+  if b.isEmpty || !b.all isDigit then none
+  else if parseDigits b < 2^64 then some (parseDigits b) else none
+
+/-- `parseScanCursor`: the cursor as the unsigned number `Convert` writes; what is not one is read as before,
+as a signed number that wraps around. -/
+def parseScanCursor (c : Bytes) : Option (BitVec 64) :=
+  match parseUint64 c with
+  | some u => some (BitVec.ofNat 64 u)
+  | none => (parseInt64 c).map toU64
+
 /-- `newScanRequest` + `Convert` + the termination test of `handleScan`;
 `args` are the arguments after the command name. -/
 def request (nHosts : Nat) (cmd : Bytes) (args : List Bytes) : Out × BitVec 16 :=
   match args with
   | [] => (.local (.err invalidRequest), 0)
   | c :: rest =>
-    match parseInt64 c with
+    match parseScanCursor c with
     | none => (.local (.err invalidCursor), 0)
-    | some v =>
-      let (idx, nc) := Gen.Scan.parseCursor (toU64 v)
+    | some u =>
+      let (idx, nc) := Gen.Scan.parseCursor u
       if Gen.Scan.pastLastNode idx nHosts then (.local respScanTerm, idx)
       else (.fwd idx.toNat (cmd :: natDigits nc.toNat :: rest), idx)
 
